@@ -43,6 +43,10 @@ pub enum ActK {
     SetVar(usize, i64),
     IncVar(usize),
     Activate(&'static str),
+    /// an action that returns an error when it runs (its right-hand side names a fact that does not exist)
+    Fail,
+    /// the rule has no actions at all (not even the recording append): `then ;`
+    Silent,
 }
 
 #[derive(Clone, Debug, PartialEq, Eq, PartialOrd, Ord)]
@@ -91,9 +95,13 @@ impl RSpec {
             CondK::VarLt(k, c) => Condition::new(format!("v{}", k), Operator::LessThan, Value::Integer(c)),
         };
         let mut actions = vec![ActionType::Append { field: "seq".to_string(), value: Value::String(self.name.clone()) }];
+        if self.act == ActK::Silent {
+            actions.clear();
+        }
         for a in [self.act, self.act2] {
             match a {
-                ActK::Nothing => {}
+                ActK::Nothing | ActK::Silent => {}
+                ActK::Fail => actions.push(ActionType::Set { field: "Total".to_string(), value: Value::Expression("NoSuchFact + 1".to_string()) }),
                 ActK::SetVar(k, c) => actions.push(ActionType::Set { field: format!("v{}", k), value: Value::Integer(c) }),
                 ActK::IncVar(k) => actions.push(ActionType::Set { field: format!("v{}", k), value: Value::Expression(format!("v{} + 1", k)) }),
                 ActK::Activate(g) => actions.push(ActionType::ActivateAgendaGroup { group: g.to_string() }),
@@ -150,9 +158,13 @@ impl RSpec {
             CondK::VarLt(k, c) => format!("v{} < {}", k, c),
         };
         let mut acts = format!("seq += \"{}\";", self.name);
+        if self.act == ActK::Silent {
+            acts = ";".to_string();
+        }
         for a in [self.act, self.act2] {
             match a {
-                ActK::Nothing => {}
+                ActK::Nothing | ActK::Silent => {}
+                ActK::Fail => acts.push_str(" Total = NoSuchFact + 1;"),
                 ActK::SetVar(k, c) => acts.push_str(&format!(" v{} = {};", k, c)),
                 ActK::IncVar(k) => acts.push_str(&format!(" v{} = v{} + 1;", k, k)),
                 ActK::Activate(g) => acts.push_str(&format!(" ActivateAgendaGroup(\"{}\");", g)),
@@ -255,10 +267,14 @@ pub fn ref_forward(rules: &[RSpec], em: &mut EModel, vars: &Vars, focus0: &str, 
             if !holds {
                 continue;
             }
-            out.seq.push(r.name.clone());
+            if r.act != ActK::Silent {
+                out.seq.push(r.name.clone());
+            }
             for a in [r.act, r.act2] {
                 match a {
-                    ActK::Nothing => {}
+                    ActK::Nothing | ActK::Silent => {}
+                    // the engine returns the error to the caller: nothing is claimed about this call
+                    ActK::Fail => out.undefined = true,
                     ActK::SetVar(k, c) => {
                         out.vars.v.insert(k, c);
                     }
@@ -503,6 +519,8 @@ fn spec_json(r: &RSpec) -> serde_json::Value {
         ActK::SetVar(k, c) => json!({"set": [k, c]}),
         ActK::IncVar(k) => json!({"inc": k}),
         ActK::Activate(g) => json!({"activate": g}),
+        ActK::Fail => json!({"fail": true}),
+        ActK::Silent => json!({"silent": true}),
     };
     json!({"name": r.name, "salience": r.salience, "enabled": r.enabled, "no_loop": r.no_loop, "loa": r.loa, "agenda": r.agenda, "actgrp": r.actgrp,
         "date": format!("{:?}", r.date),
@@ -519,6 +537,10 @@ fn spec_from_json(v: &serde_json::Value) -> RSpec {
             ActK::IncVar(k.as_u64().unwrap_or(0) as usize)
         } else if let Some(g) = a.get("activate") {
             ActK::Activate(st(g.as_str()).unwrap_or("G"))
+        } else if a.get("fail").is_some() {
+            ActK::Fail
+        } else if a.get("silent").is_some() {
+            ActK::Silent
         } else {
             ActK::Nothing
         }
@@ -676,6 +698,12 @@ pub fn history_rule_sets() -> Vec<(&'static str, Vec<RSpec>)> {
             with(p("M"), &|r| { r.act = ActK::Activate("G"); r.no_loop = true }),
             with(p("A"), &|r| { r.agenda = Some("G"); r.act = ActK::Activate("H"); r.no_loop = true }),
             with(p("B"), &|r| { r.agenda = Some("H"); r.act = ActK::Activate("G"); r.no_loop = true }),
+        ]),
+        // a lock-on-active rule whose own action moves the focus away; coming back by pop / clear is not a new activation
+        ("lock_on_active_rule_activates_other_group", vec![
+            with(p("M"), &|r| { r.loa = true; r.act = ActK::Activate("G") }),
+            with(p("A"), &|r| { r.agenda = Some("G"); r.loa = true; r.act = ActK::Activate("H") }),
+            with(p("B"), &|r| { r.agenda = Some("H"); r.no_loop = true }),
         ]),
     ]
 }
@@ -1045,26 +1073,30 @@ pub fn run_dataflow(opts: &Opts) -> Vec<Report> {
             // self-reference: the right-hand side is evaluated on the facts before the write
             let grl = format!("rule \"R1\" salience {} no-loop {{ when F.i >= 5 then F.i = F.i * F.i - F.i; }}", s1);
             cases.push((grl, vec![("F.i".into(), V::Int(i0))], vec![("F.i", (i0 * i0 - i0) as f64)], 3));
+            // R1 falsifies R2's condition within the same pass: R2 is decided on the facts as they are when it is considered
+            let grl = format!("rule \"R1\" salience {} no-loop {{ when F.i == 5 then F.i = 6; }}\nrule \"R2\" salience {} no-loop {{ when F.i == 5 then Out.hit = 1; }}", s1, s2);
+            let r2_fires = i0 == 5 && s2 > s1;
+            cases.push((grl, vec![("F.i".into(), V::Int(i0))], vec![("F.i", if i0 == 5 { 6.0 } else { i0 as f64 }), ("Out.hit", if r2_fires { 1.0 } else { -1.0 })], 3));
             // three rules, chain across passes (reverse salience): needs 3 passes
             let grl = format!("rule \"R3\" salience 30 no-loop {{ when F.b == 2 then Out.c = F.b + F.a; }}\nrule \"R2\" salience 20 no-loop {{ when F.a == 1 then F.b = F.a + 1; }}\nrule \"R1\" salience 10 no-loop {{ when F.i == {} then F.a = 1; }}", i0);
             cases.push((grl, vec![("F.i".into(), V::Int(i0)), ("F.a".into(), V::Int(0)), ("F.b".into(), V::Int(0))], vec![("F.a", 1.0), ("F.b", 2.0), ("Out.c", 3.0)], 5));
         }
     }
     for (grl, init, expect, cycles) in cases {
-        for nested in [true, false] {
+        for (nested, entry) in [(true, "execute"), (false, "execute"), (true, "execute_with_callback"), (false, "execute_with_callback")] {
             rep.count("evaluations", 1);
             let store = Store { nested, vals: init.iter().cloned().collect() };
             let facts = store.to_facts(&["F", "Out"]);
-            let case = json!({"sub": "dataflow", "grl": grl, "store": store.describe(), "expect": expect.iter().map(|(k, v)| (k.to_string(), *v)).collect::<BTreeMap<_, _>>(), "max_cycles": cycles});
-            match crate::props::c01::run_grl(&grl, &facts, cycles) {
+            let case = json!({"sub": "dataflow", "grl": grl, "store": store.describe(), "expect": expect.iter().map(|(k, v)| (k.to_string(), *v)).collect::<BTreeMap<_, _>>(), "max_cycles": cycles, "entry": entry});
+            match crate::props::c01::run_grl_via(&grl, &facts, cycles, entry) {
                 Err((c, d)) => rep.violation(Violation { class: format!("dataflow_program_rejected_{}", c), detail: d, tags: vec![], case }),
                 Ok(_) => {
-                    nt.insert(hstr(&format!("{}|{}", grl, nested)));
+                    nt.insert(hstr(&format!("{}|{}|{}", grl, nested, entry)));
                     for (path, want) in &expect {
                         let got = read(&facts, path).and_then(|v| v.num());
                         let ok = if *want < 0.0 { got.is_none() } else { got.map(|g| (g - want).abs() < 1e-9) == Some(true) };
                         if !ok {
-                            rep.violation(Violation { class: "dataflow_value_differs".into(), detail: format!("{} = {:?}, expected {} ({} layout)\n{}", path, got, if *want < 0.0 { "absent".to_string() } else { want.to_string() }, if nested { "nested" } else { "flat" }, grl), tags: vec![], case: case.clone() });
+                            rep.violation(Violation { class: "dataflow_value_differs".into(), detail: format!("{} = {:?}, expected {} ({} layout, {})\n{}", path, got, if *want < 0.0 { "absent".to_string() } else { want.to_string() }, if nested { "nested" } else { "flat" }, entry, grl), tags: vec![entry.to_string()], case: case.clone() });
                             break;
                         }
                     }
@@ -1074,7 +1106,7 @@ pub fn run_dataflow(opts: &Opts) -> Vec<Report> {
     }
     rep.count("nontrivial", nt.len() as u64);
     rep.sample(json!({"grl": "rule \"R1\" salience 10 no-loop { when F.i == 5 then F.j = F.i + 1; } rule \"R2\" salience 5 no-loop { when F.j == 6 then Out.hit = 1; }"}));
-    rep.bound = "4 two-/three-rule data-flow templates (rule feeds a later condition, rule changes what a later right-hand side reads, self-referencing assignment, 3-pass chain in reverse salience) x 2 start values x 3 salience orders x nested/flat layout".into();
+    rep.bound = "5 two-/three-rule data-flow templates (rule feeds a later condition, rule changes what a later right-hand side reads, self-referencing assignment, rule falsifies a later condition within the pass, 3-pass chain in reverse salience) x 2 start values x 3 salience orders x nested/flat layout x {execute, execute_with_callback}".into();
     rep.wall_s = t0.elapsed().as_secs_f64();
     vec![rep]
 }
@@ -1114,7 +1146,7 @@ pub fn replay(case: &serde_json::Value) -> crate::props::ReplayResult {
             }
             let facts = Store { nested, vals }.to_facts(&["F", "Out"]);
             let hist = vec![grl.clone()];
-            crate::props::c01::run_grl(&grl, &facts, case["max_cycles"].as_u64().unwrap_or(3) as usize).map_err(|(c, d)| (hist.clone(), c, d))?;
+            crate::props::c01::run_grl_via(&grl, &facts, case["max_cycles"].as_u64().unwrap_or(3) as usize, case["entry"].as_str().unwrap_or("execute")).map_err(|(c, d)| (hist.clone(), c, d))?;
             if let Some(m) = case["expect"].as_object() {
                 for (path, want) in m {
                     let want = want.as_f64().unwrap_or(0.0);
